@@ -2,7 +2,7 @@
 from . import common as C, damage as D
 
 PID = "C05"
-THEORY = ["theories/Base/Crc.v", "theories/Base/Parser.v", "theories/Base/Prog.v", "theories/Container/Reader.v",
+THEORY = ["theories/Base/Crc.v", "theories/Base/CrcParity.v", "theories/Base/Parser.v", "theories/Base/Prog.v", "theories/Container/Reader.v",
           "theories/Container/Damage.v", "theories/Container/Structural.v", "theories/Container/Check.v"]
 
 
